@@ -38,6 +38,19 @@ def run(ddl, silent, _ctor=None, **kw):
         return ("exc", type(e).__name__, isinstance(e, SimpleDDLParserException), str(e)[:300])
 
 
+BYSTANDER_DDL = "CREATE TABLE by_t (a int);\nVACUUM FULL by_t now;\nCREATE SEQUENCE by_s START 1;\n"
+
+
+def run_with_bystander(ddl, silent, **kw):
+    from simple_ddl_parser import DDLParser, SimpleDDLParserException
+    try:
+        p = DDLParser(ddl, silent=silent)
+        DDLParser(BYSTANDER_DDL, silent=not silent)
+        return ("ok", p.run(**kw))
+    except Exception as e:
+        return ("exc", type(e).__name__, isinstance(e, SimpleDDLParserException), str(e)[:300])
+
+
 _solo = {}
 
 
@@ -122,6 +135,17 @@ def check_mixed(ctx, case):
             if not same:
                 ctx.violation("loud_setting_depends_on_other_flags", dict(case, script=text, ctor=dict(extra, silent=False)),
                               {"flags": dict(extra, silent=False), "observed": short(lx[:2], 200), "silent_False_alone": short(l[:2], 200)})
+                break
+    # the setting selected for THIS object decides, whatever other objects are alive: an object with the opposite setting (another script,
+    # never run) is constructed between this object's construction and its run()
+    if ctx.obs["silent_loud_pairs"] % 3 == 0:
+        for sil, alone in ((False, l), (True, q)):
+            by = run_with_bystander(text, sil, output_mode=mode)
+            ctx.evaluated()
+            ctx.obs["runs_with_an_opposite_setting_object_alive"] += 1
+            if by[:3] != alone[:3] if alone[0] == "exc" else by != alone:
+                ctx.violation("setting_of_another_object_decides", dict(case, script=text, bystander=True, silent=sil),
+                              {"silent": sil, "observed": short(by[:4], 200), "alone": short(alone[:4], 200)})
                 break
     # loud
     must_raise = n_uns > 0 and not case.get("ignored_only")
